@@ -986,6 +986,7 @@ func (as *AbacoSource) StartRun() error {
 // a goroutine to read from the Abaco card and put data on a buffered channel
 type AbacoBuffersType struct {
 	datacopies     [][]RawType
+	firstFrame     FrameIndex // frame number of the first frame in datacopies
 	lastSampleTime time.Time
 	timeDiff       time.Duration
 	totalBytes     int
@@ -1106,12 +1107,16 @@ awaitmoredata:
 			}
 			as.buffersChan <- AbacoBuffersType{
 				datacopies:     datacopies,
+				firstFrame:     as.nextFrameNum,
 				lastSampleTime: lastSampleTime,
 				timeDiff:       timeDiff,
 				totalBytes:     bytesProcessed,
 				droppedBytes:   droppedBytes,
 				droppedFrames:  droppedFrames,
 			}
+			// The frame counter belongs to this goroutine (distributePackets reads it for the frame timing):
+			// each buffer carries its first frame number to the block assembly.
+			as.nextFrameNum += FrameIndex(framesToDeMUX)
 			droppedFrames, droppedBytes = 0, 0
 			if bytesProcessed > 0 {
 				timeout.Reset(timeoutPeriod)
@@ -1223,7 +1228,7 @@ func (as *AbacoSource) distributeData(buffersMsg AbacoBuffersType) *dataBlock {
 				rawData:         data,
 				framesPerSample: 1, // This will be changed later if decimating
 				framePeriod:     as.samplePeriod,
-				firstFrameIndex: as.nextFrameNum,
+				firstFrameIndex: buffersMsg.firstFrame,
 				firstTime:       firstTime,
 				signed:          true,
 				droppedFrames:   buffersMsg.droppedFrames,
@@ -1232,7 +1237,6 @@ func (as *AbacoSource) distributeData(buffersMsg AbacoBuffersType) *dataBlock {
 		}(channelIndex)
 	}
 	wg.Wait()
-	as.nextFrameNum += FrameIndex(framesUsed)
 	if as.heartbeats != nil {
 		pmb := float64(buffersMsg.totalBytes) / 1e6
 		hwmb := float64(buffersMsg.totalBytes-buffersMsg.droppedBytes) / 1e6
